@@ -204,6 +204,13 @@ def candidates(rng, objs, dead, opaque, factors=()):
     mx = [float(np.max(np.abs(P.contract(t.cores)))) if i in exact else 0.0 for i, t in enumerate(objs)]
     sz = [int(np.prod(t.row_dims)) * int(np.prod(t.col_dims)) for t in objs]
 
+    # the zero tensor represented by cancelling non-zero cores (A - A): after a sweep its entries are rounding noise, which every
+    # further contraction with integer data amplifies until it no longer rounds to the exact value 0 (relative accuracy is
+    # meaningless at 0).  Such objects are observed but not used as operands by the driver (conditioning, not a verdict).
+    cancelling = {i for i in exact if mx[i] < 0.5 and any(np.max(np.abs(c)) > 0.5 for c in objs[i].cores if np.size(c))}
+    exact = [i for i in exact if i not in cancelling]
+    live = [i for i in live if i not in cancelling]
+
     def closed(i):
         return objs[i].ranks[0] == 1 and objs[i].ranks[-1] == 1
     for i in exact:
